@@ -114,6 +114,13 @@ theorem closed_stride (b s e : Int) (hs : s ≠ 0) :
     · have h1 : ¬ b * s > e * s := fun hh => h (key.1 hh)
       simp [h1]; omega
 
+theorem specParse_some (str : List Char) (bs : List Block) (h : specParse str = some bs) :
+    outerOK str = true ∧ (tokenize (· = ',') (str.filter (· ≠ ' '))).mapM specBlock = some bs := by
+  unfold specParse at h
+  split at h
+  · rename_i ho; exact ⟨ho, h⟩
+  · cases h
+
 end Votca.C18
 
 namespace Votca.C18
@@ -187,8 +194,10 @@ theorem parseBlock_eq_spec (str : List Char) : parseBlock str = specBlock str :=
 
 theorem parse_eq_spec (str : List Char) : parse str = specParse str := by
   unfold parse specParse
-  congr 1
-  funext s
-  exact parseBlock_eq_spec s
+  split
+  · congr 1
+    funext s
+    exact parseBlock_eq_spec s
+  · rfl
 
 end Votca.C18
